@@ -54,6 +54,7 @@ type partialCase struct {
 	Omit    []string `json:"omit,omitempty"`
 	Replace string   `json:"replace,omitempty"` // "Field:NewType tag" for one field, or ""
 	Kind    string   `json:"kind,omitempty"`    // "" ok · nonstruct · noorigin
+	After   bool     `json:"after,omitempty"`   // rejection kinds: a well-formed declaration `type a origin.T` stands before the ill-formed one
 	res     *partialRes
 }
 
@@ -92,6 +93,10 @@ func (c *partialCase) partialSrc(pkg, origin string) string {
 	}
 	if c.Replace != "" {
 		b.WriteString("// +gengo:partialstruct:replace=" + c.Replace + "\n")
+	}
+	if c.After && c.Kind != "" {
+		// `a` sorts before `x`: the generator has already handled a well-formed declaration when it meets the other
+		fmt.Fprintf(&b, "type a %s.T\n\n// +gengo:partialstruct\n", origin)
 	}
 	switch c.Kind {
 	case "nonstruct":
@@ -472,7 +477,7 @@ func (c *partialCase) Shrinks() []Case {
 	var out []Case
 	for i := range c.Fields {
 		if len(c.Fields) > 1 {
-			n := &partialCase{Fields: append(append([]PField{}, c.Fields[:i]...), c.Fields[i+1:]...), Replace: c.Replace, Kind: c.Kind}
+			n := &partialCase{Fields: append(append([]PField{}, c.Fields[:i]...), c.Fields[i+1:]...), Replace: c.Replace, Kind: c.Kind, After: c.After}
 			for _, o := range c.Omit {
 				if o != c.Fields[i].Name {
 					n.Omit = append(n.Omit, o)
@@ -485,19 +490,19 @@ func (c *partialCase) Shrinks() []Case {
 		}
 	}
 	for i := range c.Omit {
-		out = append(out, &partialCase{Fields: c.Fields, Omit: append(append([]string{}, c.Omit[:i]...), c.Omit[i+1:]...), Replace: c.Replace, Kind: c.Kind})
+		out = append(out, &partialCase{Fields: c.Fields, Omit: append(append([]string{}, c.Omit[:i]...), c.Omit[i+1:]...), Replace: c.Replace, Kind: c.Kind, After: c.After})
 	}
 	if c.Replace != "" {
-		out = append(out, &partialCase{Fields: c.Fields, Omit: c.Omit, Kind: c.Kind})
+		out = append(out, &partialCase{Fields: c.Fields, Omit: c.Omit, Kind: c.Kind, After: c.After})
 	}
 	for i, f := range c.Fields {
 		if f.Tag != "" {
-			n := &partialCase{Fields: append([]PField{}, c.Fields...), Omit: c.Omit, Replace: c.Replace, Kind: c.Kind}
+			n := &partialCase{Fields: append([]PField{}, c.Fields...), Omit: c.Omit, Replace: c.Replace, Kind: c.Kind, After: c.After}
 			n.Fields[i].Tag = ""
 			out = append(out, n)
 		}
 		if f.Ty != 0 {
-			n := &partialCase{Fields: append([]PField{}, c.Fields...), Omit: c.Omit, Replace: c.Replace, Kind: c.Kind}
+			n := &partialCase{Fields: append([]PField{}, c.Fields...), Omit: c.Omit, Replace: c.Replace, Kind: c.Kind, After: c.After}
 			n.Fields[i].Ty = 0
 			out = append(out, n)
 		}
@@ -510,7 +515,7 @@ func (c *partialCase) Key() string {
 	for _, f := range c.Fields {
 		fs = append(fs, fmt.Sprintf("%s %s `%s`", f.Name, pfTypes[f.Ty].text, f.Tag))
 	}
-	return fmt.Sprintf("%s{%s} omit=%v replace=%q", c.Kind, strings.Join(fs, "; "), c.Omit, c.Replace)
+	return fmt.Sprintf("%s{%s} omit=%v replace=%q after=%v", c.Kind, strings.Join(fs, "; "), c.Omit, c.Replace, c.After)
 }
 
 func (c *partialCase) Classes() []string {
@@ -644,11 +649,12 @@ func init() {
 				for _, k := range []string{"nonstruct", "noorigin"} {
 					for _, om := range [][]string{nil, {"A"}} {
 						yield(&partialCase{Fields: []PField{{Name: "A", Ty: 0}, {Name: "B", Ty: 8}}, Omit: om, Kind: k})
+						yield(&partialCase{Fields: []PField{{Name: "A", Ty: 0}, {Name: "B", Ty: 8}}, Omit: om, Kind: k, After: true})
 					}
 				}
 			},
 			EnumExhaustive: false, BatchRun: partialBatch, ShrinkBudget: 5, MaxShrinks: 2,
-			Rule: "declarations that are not a struct (`type x origin.Kind`) or a struct not defined from another named type (`type x struct{…}`), with and without an omit tag: Execute must return the generator's error",
+			Rule: "declarations that are not a struct (`type x origin.Kind`) or a struct not defined from another named type (`type x struct{…}`), with and without an omit tag, alone in the package and after a well-formed declaration of the same package: Execute must return the generator's error",
 		},
 	}})
 }
